@@ -390,7 +390,7 @@ def evaluate(c, prop, d):
         cs = cases.get(case, {})
         text = ("predicate %s of spec/TraceReads.tla fails %d time(s); first: read %s of case %s (seed %s, scale %s, features %s): "
                 "q=%s out=%s" % (pred, counts[pred], ln, case, cs.get("seed"), cs.get("scale"),
-                                 json.dumps(cs.get("features"), sort_keys=True), compact_q(rd["q"]), compact_out(rd["out"])))
+                                 json.dumps(cs.get("features"), sort_keys=True), compact_q(rd.get("q")), compact_out(rd.get("out"))))
         c.violation(sig, text, dict(kind="reads", predicate=pred, case=cs, read=rd,
                                     how="harness/cmd/vh-reads replay -case <this.replay.case> ; TLC spec/TraceReads.tla TraceReadsReport.cfg"))
     # samples
@@ -436,6 +436,8 @@ def render_node(n):
 
 
 def compact_q(q):
+    if not isinstance(q, dict) or "filter" not in q:
+        return "(state line: the predicate is an invariant of the observed state, not of one read)"
     o = {k: q[k] for k in ("res", "pit", "oot", "ins", "grp", "size", "order", "xvol", "xevol", "id", "addr") if q.get(k) not in (0, "", False, None)}
     o["filter"] = render_node(q["filter"])
     if q.get("isTpl"):
@@ -449,6 +451,8 @@ def compact_q(q):
 
 
 def compact_out(out):
+    if not isinstance(out, dict) or "status" not in out:
+        return ""
     o = dict(status=out["status"], pages=[p["items"] for p in out["pages"]][:4])
     if out.get("count", -1) >= 0:
         o["count"] = out["count"]
@@ -606,7 +610,7 @@ def negative_control(d, seed, prop):
                 r, fails, _ = run_report(p, 600)
                 preds = set(f[0] for f in fails if f[1] == k + 1)
                 if preds & set(expected):
-                    return dict(case=cid, line=k + 1, rejected_by=sorted(preds), read=compact_q(rd["q"]))
+                    return dict(case=cid, line=k + 1, rejected_by=sorted(preds), read=compact_q(rd.get("q")))
                 raise vlib.Inconclusive("negative control of %s not rejected by %s (got %s): the binding is broken"
                                         % (prop, expected, sorted(preds)))
             finally:
@@ -660,7 +664,7 @@ def run_reads_stage(c, prop):
         cs = cases.get(case, {})
         text = ("predicate %s of spec/TraceReads.tla fails %d time(s); first: read %s of case %s (seed %s, scale %s, features %s): "
                 "q=%s out=%s" % (pred, counts[pred], ln, case, cs.get("seed"), cs.get("scale"),
-                                 json.dumps(cs.get("features"), sort_keys=True), compact_q(rd["q"]), compact_out(rd["out"])))
+                                 json.dumps(cs.get("features"), sort_keys=True), compact_q(rd.get("q")), compact_out(rd.get("out"))))
         c.violation(pred, text, dict(kind="reads", predicate=pred, case=cs, read=rd,
                                      how="harness/cmd/vh-reads replay -case <this.replay.case> ; TLC spec/TraceReads.tla TraceReadsReport.cfg"))
     c.set("reads_negative_control", negative_control(d, c.seed, prop))
